@@ -47,12 +47,12 @@ type wtype struct {
 	rt       reflect.Type
 	bin      bool
 	json     bool
-	variants int                                     // >0: number of concrete types of the wrapped interface, each is forced in turn
-	decBin   func(b []byte) (reflect.Value, error)   // real decoder of the binary form (nil: wire.ReadBinary with limit 0)
-	decLimit func(b []byte, lmt int) (err error)     // decoder with caller limit (robust monitor)
-	fixedLmt int                                     // >0: the real decoder has a built-in limit (DecodeMessage)
-	decJSON  func(b []byte) (reflect.Value, error)   // nil: wire.ReadJSON
-	encBin   func(v reflect.Value) []byte            // nil: wire.BinaryBytes(ptr)
+	variants int                                   // >0: number of concrete types of the wrapped interface, each is forced in turn
+	decBin   func(b []byte) (reflect.Value, error) // real decoder of the binary form (nil: wire.ReadBinary with limit 0)
+	decLimit func(b []byte, lmt int) (err error)   // decoder with caller limit (robust monitor)
+	fixedLmt int                                   // >0: the real decoder has a built-in limit (DecodeMessage)
+	decJSON  func(b []byte) (reflect.Value, error) // nil: wire.ReadJSON
+	encBin   func(v reflect.Value) []byte          // nil: wire.BinaryBytes(ptr)
 }
 
 func nVariants(wrapper interface{}) int {
